@@ -15,5 +15,5 @@ def drive (body impl : String) : Verdict :=
     (if !abn ∧ get "done" != toString (n + c) then [s!"[stalled-behind-a-sleeper] only {get "done"} of {n + c} tasks finished within {d} ms + 4 s ({n} sleepers of {d} ms, keep-alive {keep} ms, core workers {mn})"] else []) ++
     (if !abn ∧ get "done" == toString (n + c) ∧ get "late" != "0" then [s!"[sleepers-late] {n} sleepers of {d} ms on one loop with room for all finished more than 1200 ms late (keep-alive {keep} ms, core workers {mn})"] else [])
   { modelOut := s!"done={n + c} late=0", spec := [("C15", bad.isEmpty, joinWith " ; " bad)],
-    labels := [if keep > 0 then "keep-alive" else "no-keep-alive", if mn > 0 then "core-workers" else "no-core-workers", if c > 0 then "with-computing" else "sleepers-only"] }
+    labels := [if keep > 0 then "keep-alive" else "no-keep-alive", if mn > 0 then "core-workers" else "no-core-workers", if c > 0 then "with-computing" else "sleepers-only", if w.getD 5 1 > 1 then "several-loops" else "one-loop"] }
 end Oc.Driver.RtLoop
